@@ -244,6 +244,13 @@ func c07evlExec(w *c07evlWorkerState, op, kind string, b, aux []byte) (res strin
 			in := append(make([]byte, 0, len(b)), b...)
 			meter(func() { g, name, err = exel.VerifVariableLocatorDecode(in) })
 			text, withRest = func() string { return hx(g[:]) + ":" + hx(name) }, false
+			// the same locator through exel.Locate with the REAL efivarfs reader over an empty root: whatever the
+			// decoder lets through reaches the name → file-name conversion (ucs2toUTF8, varBasename), which must
+			// answer with an error, never crash (a panic here is the case's outcome)
+			root := filepath.Join(w.dir, "efivars-empty")
+			os.MkdirAll(root, 0755)
+			_, _ = exel.Locate(eventlog.RIMLocationVariable, append(make([]byte, 0, len(b)), b...),
+				&exel.LocateOptions{UEFIVariableReader: exel.MakeEfiVarFSReader(root)})
 		case "ucs2":
 			var s string
 			in := append(make([]byte, 0, len(b)), b...)
